@@ -1,14 +1,17 @@
-"""usage: d2_run.py <module> [filter]  - run tasks() (+canaries if 'can') of contracts.<module> and print non-discharged"""
-import sys, time
-sys.path.insert(0, "/verif")
+"""usage: d2_run.py <module> [filter] [-v]  - run tasks() (canary_tasks() if filter == 'can') of contracts.<module>"""
+import sys, time, os
+sys.path.insert(0, "/verif"); sys.path.insert(1, os.environ.get("VERIF_REPO", "/repo"))
 import importlib
 from pyvc.driver import run_tasks
 m = importlib.import_module("contracts." + sys.argv[1])
-flt = sys.argv[2] if len(sys.argv) > 2 else ""
+args = [a for a in sys.argv[2:] if a != "-v"]
+flt = args[0] if args else ""
 ts = [t for t in (m.canary_tasks() if flt == "can" else m.tasks()) if flt in ("", "can") or flt in t.label]
 t0 = time.time()
 d = run_tasks(ts, procs=1 if len(ts) < 3 else None)
 print("errors:", d.errors)
 bad = [o for o in d.obligations if o.status != "discharged"]
 print(f"obligations={len(d.obligations)} bad={len(bad)} wall={time.time()-t0:.1f}s")
+if "-v" in sys.argv:
+    for o in d.obligations: print("  ", o.status, o.name, round(o.ms, 1))
 for o in bad: print("  ", o.status, o.name, "|", o.detail[:160], "| replayed=", o.replayed, "|", str(o.witness)[:300])
